@@ -242,6 +242,10 @@ Fixpoint md_sorted (m : md) : bool :=
   | _ => true
   end.
 
+(* known class C17-noconv-unsorted-map: some map (at any depth) whose keys are not strictly ascending in the
+   byte order of serde_json's sorted objects *)
+Definition md_unsorted_map (m : md) : bool := negb (md_sorted m).
+
 Definition lower_hexb (s : bytes) : bool :=
   forallb (fun c => ((48 <=? c) && (c <=? 57)) || ((97 <=? c) && (c <=? 102))) s && N.even (blen s).
 Definition num_in_json_range (j : json) : bool :=
